@@ -398,7 +398,8 @@ def finish(out, ob, level="proof", extra_trusted=()):
     names = ob["theorems"] if ob else []
     cov = {
         "obligations": len(names), "discharged": len(discharged),
-        "checker_cmd": "make -C coq (coq_makefile, full .vo build) && " + (ob["cmd"] if ob else ""),
+        "checker_cmd": "make -C coq (coq_makefile, full .vo build) && " + (ob["cmd"] if ob else "") +
+                       ((" && " + ob["coqchk"]["cmd"]) if ob and isinstance(ob.get("coqchk"), dict) else ""),
         "trusted_base": [
             "Coq 8.16.1 kernel + vm_compute (no native_compute)",
             "axioms per Print Assumptions: " + json.dumps({n: ob["assumptions"].get(n) for n in names} if ob else {}),
@@ -406,6 +407,7 @@ def finish(out, ob, level="proof", extra_trusted=()):
             "extraction: ExtrOcamlBasic only (bool, option, unit, list, prod, sumbool, sumor, andb, orb); OCaml 4.13.1 driver",
         ] + list(extra_trusted),
         "theorems": names,
+        "coqchk": (ob or {}).get("coqchk", "thorough tier only"),
         "refuted": [n for n in names if n.endswith("_refuted")],
         "partial": [n for n in names if n.endswith("_partial")],
         "known_findings_reproduced": sorted(out.known_hit),
@@ -427,7 +429,32 @@ def finish(out, ob, level="proof", extra_trusted=()):
     return code
 
 
-def prepare(pid):
+def coqchk(pid, timeout=3000):
+    """Thorough tier: re-check the compiled property file and everything it depends on with the independent checker and
+    collect its context summary (axioms, type-in-type, unsafe fixpoints, assumed positivity)."""
+    t = time.time()
+    cmd = ["coqchk", "-silent", "-o", "-Q", "theories", "Grog", "-Q", "properties", "GrogProps", "GrogProps." + pid]
+    try:
+        p = run(cmd, cwd=COQ, timeout=timeout)
+    except subprocess.TimeoutExpired:
+        return {"cmd": " ".join(cmd), "ok": False, "summary": "timeout after %ds" % timeout, "seconds": timeout}
+    txt = p.stdout + p.stderr
+    i = txt.find("CONTEXT SUMMARY")
+    summ = txt[i:] if i >= 0 else txt[-1500:]
+    fields = {}
+    for key, label in (("axioms", "* Axioms:"), ("type_in_type", "type-in-type:"), ("unsafe_fixpoints", "unsafe (co)fixpoints:"),
+                       ("assumed_positivity", "positivity is assumed:")):
+        j = summ.find(label)
+        if j >= 0:
+            rest = summ[j + len(label):]
+            k = rest.find("\n* ")
+            fields[key] = " ".join((rest[:k] if k >= 0 else rest).split())
+    ok = p.returncode == 0 and all(v == "<none>" for v in fields.values()) and len(fields) == 4
+    return {"cmd": " ".join(cmd), "ok": ok, "exit": p.returncode, "seconds": round(time.time() - t, 1), **fields,
+            "summary": " ".join(summ.split())[:1200]}
+
+
+def prepare(pid, tier="quick"):
     """Common front part of every check: build Coq, scan, account for proof obligations."""
     bad = forbidden_scan()
     ok, mk = coq_make()
@@ -439,4 +466,9 @@ def prepare(pid):
         if not ok:
             ob["ok"] = False
             ob["stderr"] = "make failed: " + mk[-3000:]
+        if tier == "thorough" and ob["ok"]:
+            ob["coqchk"] = coqchk(pid)
+            if not ob["coqchk"]["ok"]:
+                ob["ok"] = False
+                ob["stderr"] = "coqchk does not accept the development or reports assumptions: " + ob["coqchk"]["summary"]
     return ob
